@@ -36,7 +36,7 @@ AREA_CHECKS = [
     ('pydbml/definitions/', ['C01', 'C07', 'C14', 'C15', 'C06', 'C13', 'C08']),
     ('pydbml/parser/blueprints.py', ['C01', 'C05', 'C06', 'C04', 'C14']),
     ('pydbml/parser/parser.py', ['C12', 'C01', 'C15', 'C05', 'C06', 'C16', 'C11']),
-    ('pydbml/_classes/', ['C09', 'C17', 'C10', 'C05', 'C16', 'C03', 'C02']),
+    ('pydbml/_classes/', ['C15', 'C09', 'C17', 'C10', 'C05', 'C16', 'C03', 'C02']),
     ('pydbml/database.py', ['C09', 'C05', 'C10', 'C16']),
     ('pydbml/renderer/sql/', ['C03', 'C04', 'C18', 'C17', 'C14', 'C13', 'C16']),
     ('pydbml/renderer/dbml/', ['C02', 'C17', 'C14', 'C13', 'C15', 'C10', 'C16']),
